@@ -149,6 +149,16 @@ def gen_cases(ctx):
                     case["geo"] = [GEOMS[1], None, GEOMS[2], GEOMS[1], None, GEOMS[1]]
                     case["geo_pos"] = 1
                 cases.append(case)
+    # columns in which EVERY element is missing, of every kind that has a missing value, alone and next to an ordinary column
+    # (what a left join without matches, or a freshly added placeholder column, looks like), through every entry point
+    allna = {"float": ["nan"] * 3, "str": [""] * 3, "date": [None] * 3, "datetime": [None] * 3, "timedelta": [None] * 3, "object": [None] * 3}
+    for kind, vals in allna.items():
+        for how in ("to_string", "str", "repr", "print_"):
+            for extra in (False, True):
+                cols = [{"name": "m", "kind": kind, "vals": list(vals)}] + ([{"name": "k", "kind": "int", "vals": [1, 2, 3]}] if extra else [])
+                cases.append({"op": "frame", "n": 3, "cols": cols, "settings": {}, "how": how, "max_rows": None, "max_width": None, "truncate_width": None, "ctrl": False})
+        for how in ("to_string", "str", "repr"):
+            cases.append({"op": "vector", "kind": kind, "vals": list(vals), "settings": {}, "how": how, "max_elements": None, "ctrl": False})
     n = 500 if ctx.tier == "quick" else 10000
     for i in range(n):
         cases.append(gen_case(rng, ctx.tier, ctrl=(i % 10 == 9)))
